@@ -497,6 +497,17 @@ def run(fn, args, stop_before=None, max_steps=4000, call_model=None, stop_after=
                 byref = (clo.local_ty(1) or "").startswith("&")
                 run(clo, {1: Ref(env, "env") if byref else argv[1], 2: item}, max_steps=max_steps, call_model=call_model, params=params, closure_of=closure_of, const_of=const_of)
             return ()
+        if name == "fold" and len(argv) == 3 and isinstance(d0, Iter) and closure_of is not None:
+            clo = closure_of(t)
+            if clo is None:
+                raise Stop("closure of fold not resolved")
+            acc = argv[1]
+            for item in d0.items:
+                env = {"env": argv[2]}
+                byref = (clo.local_ty(1) or "").startswith("&")
+                v2, _ = run(clo, {1: Ref(env, "env") if byref else argv[2], 2: acc, 3: item}, max_steps=max_steps, call_model=call_model, params=params, closure_of=closure_of, const_of=const_of)
+                acc = v2.get(0)
+            return acc
         if name in ("map", "flat_map") and len(argv) == 2 and isinstance(d0, Iter) and closure_of is not None:
             clo = closure_of(t)
             if clo is None:
